@@ -150,3 +150,22 @@ def all_events(rec, kind=None):
         for e in evs:
             if kind is None or e.get('k') == kind:
                 yield e
+
+
+def calibrate(start_methods=('fork', 'threading', 'forkserver', 'spawn')):
+    """how long a trivial pool life cycle takes on this machine right now, per start method (seconds); time limits of
+    the latency oracles are scaled with it so that a loaded machine does not turn into alarms"""
+    scens = [{'id': 'cal_' + sm, 'pool': {'n_jobs': 2, 'start_method': sm}, 'budget': 120,
+              'calls': [{'kind': 'map', 'n': 4, 'input': 'list', 'elem': 'scalar', 'params': {}, 'base': 0}]} for sm in start_methods]
+    recs = run_many(scens, 'calibrate', jobs=len(scens))
+    out = {}
+    for sm, r in zip(start_methods, recs):
+        try:
+            out[sm] = float(r['result']['calls'][0]['wall'])
+        except (TypeError, KeyError, IndexError):
+            out[sm] = 30.0
+    return out
+
+
+def scaled(base, calib, sm, factor=6.0):
+    return base + factor * calib.get(sm, 1.0)
